@@ -162,6 +162,9 @@ class Ctx:
     def build(self, props_modules, obligations):
         """Build the property modules (proof obligations) and the driver."""
         self.obligations = list(obligations)
+        from . import mkdriver
+        with Lock():
+            mkdriver.main()
         rc, out = self.lake_build(props_modules)
         if rc == 124:
             raise MachineryError('lake build timed out')
@@ -405,3 +408,69 @@ def call_with_alarm(seconds, fn, *a, **kw):
     finally:
         signal.setitimer(signal.ITIMER_REAL, 0)
         signal.signal(signal.SIGALRM, old)
+
+
+# ---------------------------------------------------------------------- numeric / rational helpers (DESIGN 2.3)
+def frac_of_float(x):
+    """exact decimal rational of the shortest round-trip repr of a float (the decimal-literal abstraction)"""
+    from fractions import Fraction
+    from decimal import Decimal
+    if isinstance(x, Fraction):
+        return x
+    if isinstance(x, int) and not isinstance(x, bool):
+        return Fraction(x)
+    return Fraction(Decimal(repr(float(x))))
+
+
+def exact_of_float(x):
+    """exact dyadic rational value of a double (for handing oracle values to the driver)"""
+    from fractions import Fraction
+    return Fraction(float(x))
+
+
+def jrat(q):
+    from fractions import Fraction
+    q = Fraction(q)
+    return {'n': str(q.numerator), 'd': str(q.denominator)}
+
+
+def unjrat(j):
+    from fractions import Fraction
+    return Fraction(int(j['n']), int(j['d']))
+
+
+def close(impl, model, scale=0.0, rel=1e-9):
+    """|impl - model| <= rel*(|model| + scale) + 1e-300 ; model may be a Fraction"""
+    m = float(model)
+    return abs(float(impl) - m) <= rel * (abs(m) + float(scale)) + 1e-300
+
+
+def shrink_list(items, fails, max_steps=400):
+    """delta-debugging: smallest sub-list (order kept) on which fails(sub) is still True"""
+    items = list(items)
+    n = 2
+    steps = 0
+    while len(items) >= 2 and steps < max_steps:
+        chunk = max(1, len(items) // n)
+        reduced = False
+        for i in range(0, len(items), chunk):
+            cand = items[:i] + items[i + chunk:]
+            steps += 1
+            if cand and fails(cand):
+                items = cand
+                n = max(n - 1, 2)
+                reduced = True
+                break
+        if not reduced:
+            if chunk == 1:
+                break
+            n = min(n * 2, len(items))
+    return items
+
+
+def exc_class(e, table):
+    """map an exception to a small enum: table = [(ExceptionType, 'name'), ...] in priority order"""
+    for t, name in table:
+        if isinstance(e, t):
+            return name
+    return 'internal:' + type(e).__name__
